@@ -84,16 +84,51 @@ func runAnalysisProp(prop string, r *Rng, n int, tier string) {
 			engine = "mysql"
 		}
 		s := genQSchema(r, engine)
+		if prop == "C07" || prop == "C02" {
+			hardenSchema(r, &s)
+		}
+		if (prop == "C05" || prop == "C06") && engine == "mysql" && r.Chance(60) {
+			s.Tables[0].Cols = append(s.Tables[0].Cols, PCol{"active", r.Pick([]string{"tinyint(1)", "boolean", "bool"}), r.Chance(50), false})
+		}
+		mustModel, prefix := "", ""
 		risky := i%8 == 0
 		q := genQStmt(r, s, i, risky)
 		schema := s.DDL()
+		switch prop {
+		case "C10":
+			// single-name corruptions of a valid statement, and schema histories that remove the name
+			if i%2 == 1 {
+				q, schema = corruptStmt(r, s, q, schema)
+			}
+		case "C07":
+			if i%2 == 0 {
+				q = genStarStmt(r, s, i)
+			}
+		case "C02":
+			if i%2 == 0 {
+				q = genShapeStmt(r, s, i)
+			}
+		case "C05", "C08":
+			if engine == "postgresql" && i%3 == 0 {
+				schema += alterHistory(r, s)
+			} else if i%3 == 1 {
+				q, mustModel = genNearModelStmt(r, s, i)
+			}
+			if i%2 == 1 {
+				prefix = seedQueries(s) // other queries of the package come first
+			}
+		}
 		res := analyzeStatement(engine, schema, q.Text(), false)
 		res.In["stmt"] = q.SQL
 		res.In["cmd"] = q.Cmd
 		res.In["nparams"] = q.NParams
+		if mustModel != "" {
+			res.In["mustModel"] = mustModel
+		}
+		res.In["withSeedQueries"] = prefix != ""
 		impl := res.Impl
 		if impl["err"] == "" {
-			impl["go"] = goObservation(engine, schema, q.Text(), q.Name, i%2 == 0)
+			impl["go"] = goObservation(engine, schema, prefix+q.Text(), q.Name, i%2 == 0)
 		}
 		emit(Case{ID: fmt.Sprintf("q-%d", i), Kind: "analysis", In: res.In, Impl: impl, Known: q.Known, Tags: append(q.Tags, engine)})
 	}
